@@ -22,6 +22,8 @@ import (
 	admissionv1 "k8s.io/api/admission/v1"
 	"k8s.io/apimachinery/pkg/runtime"
 	jsonpatchv5 "github.com/evanphx/json-patch/v5"
+	configv1beta1 "github.com/kubeflow/katib/pkg/apis/config/v1beta1"
+	sigsyaml "sigs.k8s.io/yaml"
 	expwebhook "github.com/kubeflow/katib/pkg/webhook/v1beta1/experiment"
 
 	commonv1beta1 "github.com/kubeflow/katib/pkg/apis/controller/common/v1beta1"
@@ -65,6 +67,7 @@ runtime:
 `}
 
 type c14env struct {
+	algos, ess, mcs map[string]bool // exact names present in this katib-config (independent of the lookup code under test)
 	cl   client.Client
 	gen  manifest.Generator
 	val  validator.Validator
@@ -115,7 +118,21 @@ func c14Env(i int) *c14env {
 			cl := fake.NewClientBuilder().WithScheme(valScheme).WithObjects(cm, tpl, nsObj).Build()
 			gen := manifest.New(cl)
 			dec := admission.NewDecoder(valScheme)
-			c14envs = append(c14envs, &c14env{cl: cl, gen: gen, val: validator.New(gen), defW: expwebhook.NewExperimentDefaulter(cl, dec), valW: expwebhook.NewExperimentValidator(cl, dec)})
+			env := &c14env{cl: cl, gen: gen, val: validator.New(gen), defW: expwebhook.NewExperimentDefaulter(cl, dec), valW: expwebhook.NewExperimentValidator(cl, dec),
+				algos: map[string]bool{}, ess: map[string]bool{}, mcs: map[string]bool{}}
+			kc := configv1beta1.KatibConfig{}
+			if err := sigsyaml.Unmarshal([]byte(cfg), &kc); err == nil {
+				for _, x := range kc.RuntimeConfig.SuggestionConfigs {
+					env.algos[x.AlgorithmName] = true
+				}
+				for _, x := range kc.RuntimeConfig.EarlyStoppingConfigs {
+					env.ess[x.AlgorithmName] = true
+				}
+				for _, x := range kc.RuntimeConfig.MetricsCollectorConfigs {
+					env.mcs[x.CollectorKind] = true
+				}
+			}
+			c14envs = append(c14envs, env)
 		}
 	}
 	return c14envs[i]
@@ -367,7 +384,7 @@ func cleanExp14(rng *rand.Rand) *experimentsv1beta1.Experiment {
 		s.MaxTrialCount = nil
 	}
 	s.Objective = &commonv1beta1.ObjectiveSpec{Type: pick(rng, []commonv1beta1.ObjectiveType{"maximize", "minimize"}), ObjectiveMetricName: "acc", AdditionalMetricNames: pick(rng, [][]string{nil, {"loss"}, {"loss", "f1"}})}
-	s.Algorithm = &commonv1beta1.AlgorithmSpec{AlgorithmName: pick(rng, []string{"random", "random", "tpe", "My_Algo", "a-very-long-algorithm-name-for-katib", "bayesianoptimization"})}
+	s.Algorithm = &commonv1beta1.AlgorithmSpec{AlgorithmName: pick(rng, []string{"random", "random", "tpe", "My_Algo", "a-very-long-algorithm-name-for-katib", "bayesianoptimization", "TPE", "Random", "BayesianOptimization"})}
 	if rng.Intn(3) == 0 {
 		s.EarlyStopping = &commonv1beta1.EarlyStoppingSpec{AlgorithmName: "medianstop"}
 	}
@@ -523,10 +540,10 @@ func genExp14(rng *rand.Rand) (*experimentsv1beta1.Experiment, []string) {
 			AdditionalMetricNames: pick(rng, [][]string{nil, {"loss"}, {"acc"}, {"loss", "f1"}})}
 	}
 	if rng.Intn(15) != 0 {
-		s.Algorithm = &commonv1beta1.AlgorithmSpec{AlgorithmName: pick(rng, []string{"random", "random", "random", "tpe", "unknownalgo", "", "My_Algo", "a-very-long-algorithm-name-for-katib", "bayesianoptimization"})}
+		s.Algorithm = &commonv1beta1.AlgorithmSpec{AlgorithmName: pick(rng, []string{"random", "random", "random", "tpe", "unknownalgo", "", "My_Algo", "a-very-long-algorithm-name-for-katib", "bayesianoptimization", "TPE", "Random", " random"})}
 	}
 	if rng.Intn(3) == 0 {
-		s.EarlyStopping = &commonv1beta1.EarlyStoppingSpec{AlgorithmName: pick(rng, []string{"medianstop", "medianstop", "bogus", ""})}
+		s.EarlyStopping = &commonv1beta1.EarlyStoppingSpec{AlgorithmName: pick(rng, []string{"medianstop", "medianstop", "bogus", "", "MedianStop"})}
 	}
 	s.ResumePolicy = pick(rng, []experimentsv1beta1.ResumePolicyType{"", "Never", "LongRunning", "FromVolume", "bogus", "Never"})
 	names := []string{"lr", "layers", "opt", "lr", ""}
@@ -684,15 +701,13 @@ func init() {
 		}
 		if s.Algorithm != nil {
 			tok = append(tok, "1", hx(s.Algorithm.AlgorithmName))
-			_, err := env.gen.GetSuggestionConfigData(s.Algorithm.AlgorithmName)
-			tok = append(tok, b01(err == nil))
+			tok = append(tok, b01(env.algos[s.Algorithm.AlgorithmName]))
 		} else {
 			tok = append(tok, "0", "0")
 		}
 		if s.EarlyStopping != nil {
 			tok = append(tok, "1", hx(s.EarlyStopping.AlgorithmName))
-			_, err := env.gen.GetEarlyStoppingConfigData(s.EarlyStopping.AlgorithmName)
-			tok = append(tok, b01(err == nil))
+			tok = append(tok, b01(env.ess[s.EarlyStopping.AlgorithmName]))
 		} else {
 			tok = append(tok, "0", "0")
 		}
@@ -858,8 +873,7 @@ func init() {
 		}()
 		cfgKnown := true
 		if crashed == "" && d.Spec.MetricsCollectorSpec != nil && d.Spec.MetricsCollectorSpec.Collector != nil {
-			_, err := env.gen.GetMetricsCollectorConfigData(d.Spec.MetricsCollectorSpec.Collector.Kind)
-			cfgKnown = err == nil
+			cfgKnown = env.mcs[string(d.Spec.MetricsCollectorSpec.Collector.Kind)]
 		}
 		tok = append(tok, b01(cfgKnown))
 		op := "C14 validate " + strings.Join(tok, " ") + " " + battery
